@@ -212,6 +212,9 @@ pub fn exec<W: World>(mk: &dyn Fn() -> W, prop: &str, choices: &[usize]) -> Exec
             }
         }
     }
+    if std::env::var_os("A10MC_TRACE_HIST").is_some() {
+        eprintln!("HIST {history:?} -> {:?}", violations.iter().map(|v| format!("{}:{}", v.prop, v.sig)).collect::<Vec<_>>());
+    }
     ExecResult { violations, history, enabled, key, observation, transitions, bad_choice, end_only }
 }
 
